@@ -756,3 +756,29 @@ def atomic_facts(fn, test, truth):
         out.add(("T" if t else "F", norm(e)))
     go(test, truth)
     return out
+
+
+def inline_nested(module, fn, cls=None):
+    """copy of ``fn`` in which the module's private helpers are inlined into
+    ``fn`` itself and into every function nested in it (closures, decorator
+    wrappers)"""
+    fn = copy.deepcopy(fn)
+
+    def visit(node):
+        for field in ("body", "orelse", "finalbody"):
+            blk = getattr(node, field, None)
+            if not isinstance(blk, list):
+                continue
+            for i, st in enumerate(blk):
+                if isinstance(st, ast.FunctionDef):
+                    visit(st)
+                    blk[i] = inline_helpers(module, None, st)
+                elif isinstance(st, ast.stmt):
+                    visit(st)
+        for h in getattr(node, "handlers", []) or []:
+            visit(h)
+    visit(fn)
+    try:
+        return inline_helpers(module, cls, fn)
+    except Exception:
+        return fn
